@@ -33,8 +33,7 @@ def gcc_agrees(m, sc, i):
     e = sc["ents"][i]
     res = sc["res"][i]
     a = ["gcc", "-E", "-P"]
-    if e["x"] != "U":
-        a.append("-DX")
+    a += scen.x_args(e)
     if e.get("hdr", "U") != "U":
         a.append("-DHDR=" + render.val_text(e["hdr"]))
     for r in e["idirs"]:
